@@ -121,6 +121,10 @@ def cases(E):
     cs += _c08.scope_creation_cases(E)
     # conditions and bounds read names defined any number of scopes further out, through scopes that define nothing themselves
     cs += _c08.chain_cases(E)
+    # ... and a loop body may splice a code-block parameter of the macro it sits in (`.macro rep(n, code) { .for i := 0, n { {{ code }} } }`): the block
+    # is found from a scope nested in the application's scope (C09's contract)
+    from vf.props import C09 as _c09
+    cs += [c for c in _c09.own_cases(E) if "code_block_argument_contract" in c.harness]
     # a named scope in a loop body exports its names to the ITERATION's scope (each iteration has its own `name.label`), as the unrolled blocks would
     from vf.props import C02 as _c02
     for kind, ex in (("named-in-loop", True), ("named", True)):
